@@ -889,6 +889,13 @@ def premise_entry(ctx, rule="E", sizes=((FIVE, 5), (SIX, 6), (SEVEN, 7)), gate_t
                 refv[iv] = cval(evaluate(pdb, ref, env))
             rep.ob(rule + ".validity-gate", short(path), res == {0: 0, 1: refv[1]} and refv[1] == 4242,
                    "hand_rank_value_validated gives %s for an invalid hand and %s for a valid hand whose unvalidated value is %s (must be 0 / the unvalidated value)" % (res.get(0), res.get(1), refv.get(1)), pdb.where(k_g))
+            # ... for every hand, not only the placeholder: with is_valid() true the result is the unvalidated value
+            # itself (the same node), with is_valid() false it is the constant 0
+            vcalls = [x for x in walk(r) if x[0] == "call" and x[1] == "fn:" + k_valid]
+            r_t = substitute(r, lambda nd: TRUE if (nd[0] == "call" and nd[1] == "fn:" + k_valid) else None)
+            r_f = substitute(r, lambda nd: FALSE if (nd[0] == "call" and nd[1] == "fn:" + k_valid) else None)
+            rep.ob(rule + ".validity-gate-exact", short(path), r_t is ref and r_f[0] == "c" and r_f[1] == 0,
+                   "hand_rank_value_validated is not `if is_valid() { hand_rank_value() } else { 0 }` of the same hand for every hand (it differs on some hands the sample does not show)", pdb.where(k_g))
             # the calls must be on the same hand
             for x in walk(r):
                 if x[0] == "call" and (x[1] in ("fn:" + k_valid, "fn:" + k_and) or x[1].startswith("fn:%s#" % k_and)):
